@@ -68,7 +68,8 @@ static int const_b(int c)
 }
 static int size_b(int sz)
 {
-	return sz == 0 || sz == 1 || sz == 15 || sz == 16 || sz == 17 || sz == 33 || sz == max_size();
+	static const int q[] = {0, 1, 15, 16, 17, 33, 40}, t[] = {0, 1, 7, 8, 15, 16, 17, 31, 32, 33, 47, 48, 49, 64, 65, 80};
+	return g_tier_q ? in_set(sz, q, 7) : in_set(sz, t, 16);
 }
 static int is_group(int sz, int n, int p, int c)
 {
@@ -86,7 +87,7 @@ static int n_buf(int n) { return n_dst(n) + n_src(n); }
 /* alignment sequences: 0 = every vector of (0..7)^nb, 1 = uniform, 2 = uniform then staggered */
 static int al_scheme(int n, int p, int c)
 {
-	if (p == 1) return 1;
+	if (p == 1 && g_tier_q) return 1;
 	if (g_kid >= 3 && !const_a(c)) return 2;
 	return n_buf(n) <= 3 ? 0 : 2;
 }
